@@ -199,6 +199,7 @@ pub fn run_raw_topic(topic: &str, cx: &mut Raw) -> bool {
         "fuzz" => fuzz(cx),
         "api" => api(cx),
         "ser" => ser(cx),
+        "params" => params(cx),
         "ladder" => ladder(cx),
         _ => return false,
     }
@@ -890,5 +891,195 @@ pub fn ser(cx: &mut Raw) {
         let t = g.expr(&mut cx.rng, 1 + (i % 4) as u32);
         let src = render(&t, Parens::Min, false, &mut cx.rng);
         ser_record(cx, &src, &binds);
+    }
+}
+
+// ---------------------------------------------------------------------------------------------
+// C17: reported parameters
+
+fn params_record(cx: &mut Raw, t: &T, position: &str) {
+    let src = render(t, Parens::Min, false, &mut cx.rng);
+    let c = compile_record(&src, true, false, false);
+    let mut j = c.json;
+    j["tree"] = t.to_json();
+    j["position"] = J::from(position);
+    let idents: Vec<String> = j.get("tokens").and_then(|t| t.as_array()).map(|ts| ts.iter().filter(|t| t["k"] == "ident").filter_map(|t| t["v"].as_str().map(|s| s.to_string())).collect()).unwrap_or_default();
+    // identifiers inside f-string segments are source text too
+    let mut idents = idents;
+    fn fstr_idents(t: &T, out: &mut Vec<String>) {
+        if let T::FStr(segs) = t {
+            for s in segs {
+                if let Seg::Expr(e) = s {
+                    let txt = render_min(e);
+                    let (toks, _) = crate::proj::tokenize(&txt);
+                    for tk in toks {
+                        if tk["k"] == "ident" {
+                            if let Some(s) = tk["v"].as_str() {
+                                out.push(s.to_string());
+                            }
+                        }
+                    }
+                }
+            }
+        }
+    }
+    let mut stack = vec![t.clone()];
+    while let Some(x) = stack.pop() {
+        fstr_idents(&x, &mut idents);
+        match x {
+            T::Un { e, .. } | T::Paren(e) | T::Sel { e, .. } => stack.push(*e),
+            T::Bin { l, r, .. } => {
+                stack.push(*l);
+                stack.push(*r)
+            }
+            T::Tern { c, a, b } => {
+                stack.push(*c);
+                stack.push(*a);
+                stack.push(*b)
+            }
+            T::List(es) => stack.extend(es),
+            T::Map(kv) => kv.into_iter().for_each(|(k, v)| {
+                stack.push(k);
+                stack.push(v)
+            }),
+            T::Idx { e, i } => {
+                stack.push(*e);
+                stack.push(*i)
+            }
+            T::Call { args, .. } => stack.extend(args),
+            T::MCall { r, args, .. } => {
+                stack.push(*r);
+                stack.extend(args)
+            }
+            T::Match { e, cases } => {
+                stack.push(*e);
+                for (p, e) in cases {
+                    if let Pat::Cmp(_, v) = p {
+                        stack.push(v)
+                    }
+                    stack.push(e)
+                }
+            }
+            _ => {}
+        }
+    }
+    j["idents"] = json!(idents);
+    j.as_object_mut().unwrap().remove("tokens");
+    let mut filters = Vec::new();
+    let mut relevance = Vec::new();
+    if let Some(prog) = c.program {
+        let reported: Vec<String> = prog.params().iter().map(|s| s.to_string()).collect();
+        // filter against: the default bindings; bindings with some of the reported names bound
+        for variant in 0..3 {
+            let mut b = rscel::BindContext::new();
+            let mut bound: Vec<String> = crate::gen::FUNC_NAMES.iter().filter(|n| !["bool", "int", "uint", "float", "double", "string", "bytes", "type", "timestamp", "duration", "dyn", "null_type"].contains(n)).map(|s| s.to_string()).collect();
+            if variant >= 1 {
+                for (i, n) in reported.iter().enumerate() {
+                    if (i + variant) % 2 == 0 {
+                        b.bind_param(n, rscel::CelValue::from_int(1));
+                        bound.push(n.clone());
+                    }
+                }
+            }
+            let mut d = prog.details().clone();
+            d.filter_from_bindings(&b);
+            let mut f: Vec<String> = d.params().iter().map(|s| s.to_string()).collect();
+            f.sort();
+            filters.push(json!({"bound": bound, "filtered": f}));
+        }
+        // relevance: an identifier of the source that is not reported must not influence the result
+        let mut uniq: Vec<String> = j["idents"].as_array().unwrap().iter().filter_map(|x| x.as_str().map(|s| s.to_string())).collect();
+        uniq.sort();
+        uniq.dedup();
+        for name in uniq.iter().filter(|n| !reported.contains(n)).take(4) {
+            let run = |v: rscel::CelValue| {
+                let mut bind = vec![];
+                for n in reported.iter() {
+                    bind.push((n.clone(), V::Int(2)));
+                }
+                let res = std::panic::catch_unwind(std::panic::AssertUnwindSafe(|| {
+                    let mut ctx = rscel::CelContext::new();
+                    ctx.add_program("main", prog.clone());
+                    let mut b = rscel::BindContext::new();
+                    for (k, v) in bind.iter() {
+                        b.bind_param(k, v.to_cel().unwrap());
+                    }
+                    b.bind_param(name, v);
+                    crate::val::outcome(&ctx.exec("main", &b))
+                }));
+                res.unwrap_or_else(|p| crate::val::crash(&crate::run::panic_msg(p)))
+            };
+            let mut a = run(rscel::CelValue::from_int(2));
+            let mut b2 = run(rscel::CelValue::from_string("other".to_string()));
+            for o in [&mut a, &mut b2] {
+                if let Some(m) = o.as_object_mut() {
+                    m.remove("msg");
+                }
+            }
+            relevance.push(json!({"name": name, "a": a, "b": b2}));
+        }
+    }
+    j["filters"] = J::Array(filters);
+    j["relevance"] = J::Array(relevance);
+    cx.emit(j);
+}
+
+pub fn params(cx: &mut Raw) {
+    // a variable in every syntactic position, nesting depth <= 2
+    let q = || id("q");
+    let positions: Vec<(&str, Box<dyn Fn(T) -> T>)> = vec![
+        ("operand", Box::new(|v| bin("+", v, lit(V::Int(1))))),
+        ("right-operand", Box::new(|v| bin("*", lit(V::Int(2)), v))),
+        ("unary", Box::new(|v| un('-', 1, v))),
+        ("call-argument", Box::new(|v| call("size", vec![v]))),
+        ("second-call-argument", Box::new(|v| call("max", vec![lit(V::Int(1)), v]))),
+        ("receiver", Box::new(|v| mcall(v, "size", vec![]))),
+        ("method-argument", Box::new(|v| mcall(lit(V::Str("abc".into())), "contains", vec![v]))),
+        ("macro-range", Box::new(|v| mcall(v, "map", vec![id("e"), id("e")]))),
+        ("macro-body", Box::new(|v| mcall(T::List(vec![lit(V::Int(1))]), "map", vec![id("e"), bin("+", id("e"), v)]))),
+        ("macro-predicate", Box::new(|v| mcall(T::List(vec![lit(V::Int(1))]), "map", vec![id("e"), v, id("e")]))),
+        ("macro-transform", Box::new(|v| mcall(T::List(vec![lit(V::Int(1))]), "map", vec![id("e"), lit(V::Bool(true)), v]))),
+        ("reduce-step", Box::new(|v| mcall(T::List(vec![lit(V::Int(1))]), "reduce", vec![id("acc"), id("e"), bin("+", id("acc"), v), lit(V::Int(0))]))),
+        ("reduce-seed", Box::new(|v| mcall(T::List(vec![lit(V::Int(1))]), "reduce", vec![id("acc"), id("e"), id("acc"), v]))),
+        ("filter-on-constant-list", Box::new(|v| mcall(T::List(vec![lit(V::Int(1)), lit(V::Int(2))]), "filter", vec![id("e"), bin(">", id("e"), v)]))),
+        ("fstring", Box::new(|v| T::FStr(vec![Seg::Lit("x".into()), Seg::Expr(v)]))),
+        ("index", Box::new(|v| idx(T::List(vec![lit(V::Int(1))]), v))),
+        ("indexed", Box::new(|v| idx(v, lit(V::Int(0))))),
+        ("map-key", Box::new(|v| T::Map(vec![(v, lit(V::Int(1)))]))),
+        ("map-value", Box::new(|v| T::Map(vec![(lit(V::Str("k".into())), v)]))),
+        ("list-element", Box::new(|v| T::List(vec![lit(V::Int(1)), v]))),
+        ("select", Box::new(|v| sel(v, "f"))),
+        ("match-scrutinee", Box::new(|v| T::Match { e: Box::new(v), cases: vec![(Pat::Any, lit(V::Int(1)))] })),
+        ("match-pattern", Box::new(|v| T::Match { e: Box::new(lit(V::Int(1))), cases: vec![(Pat::Cmp("==".into(), v), lit(V::Int(1)))] })),
+        ("match-arm", Box::new(|v| T::Match { e: Box::new(lit(V::Int(1))), cases: vec![(Pat::Type("string".into()), v), (Pat::Any, lit(V::Int(2)))] })),
+        ("untaken-then", Box::new(|v| tern(lit(V::Bool(false)), v, lit(V::Int(1))))),
+        ("untaken-else", Box::new(|v| tern(lit(V::Bool(true)), lit(V::Int(1)), v))),
+        ("condition", Box::new(|v| tern(v, lit(V::Int(1)), lit(V::Int(2))))),
+        ("or-right-of-true", Box::new(|v| bin("||", lit(V::Bool(true)), v))),
+        ("and-right-of-false", Box::new(|v| bin("&&", lit(V::Bool(false)), v))),
+        ("has", Box::new(|v| call("has", vec![sel(v, "f")]))),
+        ("coalesce", Box::new(|v| call("coalesce", vec![lit(V::Null), v]))),
+        ("in-list", Box::new(|v| bin("in", lit(V::Int(1)), T::List(vec![v])))),
+        ("paren", Box::new(|v| T::Paren(Box::new(v)))),
+        ("type-constructor", Box::new(|v| call("int", vec![v]))),
+    ];
+    for (name, f) in positions.iter() {
+        params_record(cx, &f(q()), name);
+    }
+    for (n1, f1) in positions.iter() {
+        for (n2, f2) in positions.iter() {
+            if n1 == n2 && !cx.thorough {
+                continue;
+            }
+            if cx.thorough || cx.rng.below(3) == 0 {
+                params_record(cx, &f1(f2(q())), &format!("{}/{}", n1, n2));
+            }
+        }
+    }
+    // several variables, generated programs
+    let g = full_gen();
+    for i in 0..cx.n {
+        let t = g.expr(&mut cx.rng, 1 + (i % 4) as u32);
+        params_record(cx, &t, "generated");
     }
 }
